@@ -1,26 +1,37 @@
-"""X2 - extension of the specification beyond the 20 listed properties: runtime/contextutils (merged contexts) and
-runtime/module (module lifecycle on reactive events)."""
+"""X2 - extension of the specification beyond the 20 listed properties:
+
+  runtime/contextutils  MergeContexts: done iff a parent is done or the cancel function was called; Err / Deadline / Value;
+                        helper goroutine ends with the context            (spec/ext2/MergeCtx.tla, CtxRun.tla)
+  runtime/module        the module lifecycle on reactive events: four one-shot events, OnTrigger callbacks, InitSimpleLifecycle,
+                        TriggerAll, WaitAll, NewSubModule                 (spec/ext2/Lifecycle.tla, LifeRun.tla)
+
+(The work order also named a generic runtime/promise.Promise with Resolve/Reject; no such type exists in this snapshot of
+hive.go - runtime/promise holds Event/Event1 only, which property C15 covers.)
+"""
 from lib.units import SeqUnit, McUnit, TraceUnit
 
 
 def units(ctx):
+    lts = "lts2" if ctx.thorough else "lts"
     return [
-        # runtime/module: exhaustive slice "one module, two callbacks, both lifecycles"; replay of the slice "callbacks and
-        # lifecycles of one module"; random histories over 4 modules / 8 callbacks / 3 wait groups validated by TLC
-        SeqUnit("ext2", "Lifecycle", lts_kind=("lts2" if ctx.thorough else "lts"), traces=(60, 60), thorough_traces=(600, 80),
-                walks=(60, 20), thorough_walks=(300, 30)),
-        # replay of the slice "sub-module, log levels, TriggerAll / WaitAll"
+        # ---- runtime/module, sequential (re-entrant callbacks included) ----
+        # exhaustive slice "one module, two callbacks (plain / registering / triggering), both lifecycles"; replay of the LTS
+        # "one module, one callback, both lifecycles" on real modules; random histories over 4 modules / 8 callbacks /
+        # 3 wait groups / 3 log levels validated by TLC
+        SeqUnit("ext2", "Lifecycle", lts_kind=lts, traces=(60, 60), thorough_traces=(600, 80), walks=(60, 20), thorough_walks=(300, 30)),
+        # replay of the LTS "root + sub-module, log levels, TriggerAll / WaitAll, a callback on the wait group"
         SeqUnit("ext2", "Lifecycle", name="Lifecycle:tree", lts_kind="ltsB", do_mc=False, do_trace=False, walks=(60, 20)),
-        # further exhaustive slices: tree of three modules with levels; wait groups over two modules
+        # further exhaustive slices: a tree of three modules with log levels; wait groups over two modules
         McUnit("ext2", "Lifecycle", "mcT", name="Lifecycle:mcT"),
         McUnit("ext2", "Lifecycle", "mcW", name="Lifecycle:mcW"),
-        SeqUnit("ext2", "MergeCtx", lts_kind=("lts2" if ctx.thorough else "lts"), traces=(40, 40), thorough_traces=(400, 60), walks=(60, 20), thorough_walks=(300, 30)),
-        # runtime/module under concurrency: forced schedules (a Trigger held in flight inside a gate callback while other calls
-        # are made) + free-running triggerers / registrars / unsubscribers / InitSimpleLifecycle / TriggerAll / WaitAll+Wait / readers
+        # ---- runtime/module under concurrency: forced schedules (a Trigger held in flight inside a gate callback while other
+        # calls are made) + free-running triggerers / registrars / unsubscribers / InitSimpleLifecycle / TriggerAll /
+        # WaitAll + Wait / readers (also GOMAXPROCS(1)); every execution validated by TLC against the trace spec ----
         TraceUnit("ext2", "LifeRun", "x2life", args=["-traces", 60], thorough_args=["-traces", 1500], sut="LifeRun"),
-        # the trace spec itself (closed over a small alphabet): what it accepts keeps the first error
+        # ---- runtime/contextutils at quiescent points: nested merges, std and hand-written parents, deadlines, values ----
+        SeqUnit("ext2", "MergeCtx", lts_kind=lts, traces=(40, 40), thorough_traces=(400, 60), walks=(60, 20), thorough_walks=(300, 30)),
+        # ---- runtime/contextutils under concurrency: the trace spec itself (closed over a small alphabet), then forced
+        # schedules through the gates in the fake parents' Done()/Err() + free-running enders / cancellers / readers ----
         McUnit("ext2", "CtxRun", "", name="CtxRun:spec"),
-        # MergeContexts under concurrency: forced schedules through the gates in the fake parents' Done()/Err() + free-running
-        # enders / cancellers / readers (also GOMAXPROCS(1)); every execution validated by TLC
         TraceUnit("ext2", "CtxRun", "x2ctx", args=["-traces", 60], thorough_args=["-traces", 1500], sut="CtxRun"),
     ]
